@@ -301,8 +301,8 @@ pub fn c03_replay(path: &str) -> i32 {
 // C32: injected write failures
 
 /// Public StorageData wrapper failing the n-th mutating call (DESIGN 2.6).
-pub struct Faulty {
-    inner: FileStorage,
+pub struct Faulty<S: StorageData = FileStorage> {
+    inner: S,
     /// number of mutating calls (write/resize) seen
     calls: Arc<AtomicU64>,
     /// fail when `calls` reaches this value (-1 = never)
@@ -314,7 +314,7 @@ pub struct Faulty {
     flushes: Arc<AtomicU64>,
 }
 
-impl Faulty {
+impl<S: StorageData> Faulty<S> {
     fn maybe_fail(&mut self, pos: Option<(u64, &[u8])>) -> Result<(), DbError> {
         let n = self.calls.fetch_add(1, Ordering::Relaxed) as i64;
         if n == self.fail_at.load(Ordering::Relaxed) {
@@ -332,7 +332,7 @@ impl Faulty {
     }
 }
 
-impl StorageData for Faulty {
+impl<S: StorageData> StorageData for Faulty<S> {
     fn backup(&self, name: &str) -> Result<(), DbError> {
         self.inner.backup(name)
     }
@@ -352,7 +352,7 @@ impl StorageData for Faulty {
     fn new(name: &str) -> Result<Self, DbError> {
         Ok(Faulty {
             flushes: Arc::new(AtomicU64::new(0)),
-            inner: FileStorage::new(name)?,
+            inner: S::new(name)?,
             calls: Arc::new(AtomicU64::new(0)),
             fail_at: Arc::new(AtomicI64::new(-1)),
             short: Arc::new(AtomicU64::new(0)),
@@ -565,6 +565,83 @@ fn c32_case(c: &FaultCase) -> CaseResult {
     Ok(ci)
 }
 
+
+/// Second C32 campaign: the same fault injection on a storage WITHOUT a recovery log
+/// (Faulty<MemoryStorage>). The listed finding's heaviest consequence - nothing is committed any
+/// more and closing rolls later work back - cannot occur there, so what remains visible is how
+/// each kind of query copes with a failed write by itself. Signatures name the kind of the hit
+/// query; the kinds that misbehave on the unchanged tree are listed findings (same root cause),
+/// a kind that is clean there and starts to misbehave is a violation.
+fn c32_mem_case(c: &FaultCase) -> CaseResult {
+    use agdb::MemoryStorage;
+    let ranges: Vec<(u64, u64)> = {
+        let data = Faulty::<MemoryStorage>::new("c32mem-probe").map_err(|e| Fail::new("harness: Faulty::new", format!("{e:?}")))?;
+        let calls = data.calls.clone();
+        let mut db: DbImpl<Faulty<MemoryStorage>> = DbImpl::with_data(data).map_err(|e| Fail::new("harness: with_data", format!("{e:?}")))?;
+        let mut model = RefDb::default();
+        let mut info = HistInfo::default();
+        let mut ranges = vec![];
+        for s in &c.history {
+            let a = calls.load(Ordering::Relaxed);
+            run_step(&mut model, &mut db, s, &mut info)?;
+            ranges.push((a, calls.load(Ordering::Relaxed)));
+        }
+        ranges
+    };
+    // single queries only: the kind of the hit query is the signature
+    let candidates: Vec<usize> = ranges.iter().enumerate().filter(|(i, (a, b))| b > a && matches!(c.history[*i], Step::Q(_))).map(|(i, _)| i).collect();
+    let mut ci = CaseInfo::default();
+    if candidates.is_empty() {
+        ci.label("no single query with storage writes");
+        return Ok(ci);
+    }
+    let target = candidates[pick(c.step_sel, candidates.len())];
+    let (a, b) = ranges[target];
+    let call = a + pick(c.call_sel, (b - a) as usize) as u64;
+    let data = Faulty::<MemoryStorage>::new("c32mem").map_err(|e| Fail::new("harness: Faulty::new", format!("{e:?}")))?;
+    let (fail_at, short, fired) = (data.fail_at.clone(), data.short.clone(), data.fired.clone());
+    let mut db: DbImpl<Faulty<MemoryStorage>> = DbImpl::with_data(data).map_err(|e| Fail::new("harness: with_data", format!("{e:?}")))?;
+    let mut model = RefDb::default();
+    let mut info = HistInfo::default();
+    let opts = HistOpts { dump_every: 0, check_after_failure: true };
+    run_history(&mut model, &mut db, &c.history[..target], &opts, &mut info)?;
+    let before = catch(|| dump_db(&db, &[], DumpMode::Strict))??;
+    fail_at.store(call as i64, Ordering::Relaxed);
+    short.store(c.short_write as u64, Ordering::Relaxed);
+    let Step::Q(q) = &c.history[target] else { return Ok(ci) };
+    let kind = q.kind();
+    let resolved = model.resolve(q);
+    let sig = |symptom: &str| format!("failed write without recovery log, fault in {kind}: {symptom}");
+    let r = catch(|| db.run(&resolved)).map_err(|mut f| {
+        f.detail = format!("{}\n{}\nstep {target} {q:?}, failing storage call {call} of [{a},{b})", f.sig, f.detail);
+        f.sig = sig("query misbehaves or state inconsistent");
+        f
+    })?;
+    fail_at.store(-1, Ordering::Relaxed);
+    if fired.load(Ordering::Relaxed) == 0 {
+        ci.label("fault position not reached");
+        return Ok(ci);
+    }
+    if r.is_ok() {
+        return Err(Fail::new("query reports success although a storage write failed", format!("step {target} {q:?}, failing storage call {call} of [{a},{b})")));
+    }
+    let broken = |what: &str, detail: String| Fail::new(sig("query misbehaves or state inconsistent"), format!("{what}: {detail}\nstep {target} {q:?}, failing storage call {call} of [{a},{b})"));
+    let after = match catch(|| dump_db(&db, &[], DumpMode::Strict)) {
+        Ok(Ok(d)) => d,
+        Ok(Err(f)) | Err(f) => return Err(broken("database unusable afterwards", format!("{} {}", f.sig, f.detail))),
+    };
+    if after.normalized() != before.normalized() {
+        return Err(broken("effect not undone", format!("differs in {}: {}", after.normalized().diff_section(&before.normalized()), after.normalized().diff(&before.normalized()))));
+    }
+    resync_order(&mut model, &after);
+    let mut sinfo = HistInfo::default();
+    run_history(&mut model, &mut db, &c.suffix, &HistOpts { dump_every: 1, check_after_failure: true }, &mut sinfo).map_err(|f| broken("later queries misbehave", format!("{} {}", f.sig, f.detail)))?;
+    ci.evals = 1;
+    ci.nontrivial = call > a && sinfo.ok_steps > 0;
+    ci.count(format!("clean: fault in {kind}"), 1);
+    Ok(ci)
+}
+
 pub fn c32(ctx: &mut Ctx) {
     ctx.level = "fault_enumeration".into();
     ctx.rule = "generated histories (5-30 steps) on DbImpl<Faulty<FileStorage>> (a public StorageData wrapper passed to DbImpl::with_data); a first fault-free pass records each step's range of storage write/resize calls; the second pass fails one generated call inside one generated step (clean failure or short write that performs half of the write first), then runs a generated suffix of further queries, closes, and reopens with DbFile::new and Db::new. Oracle: the hit query returns Err; the order-insensitive dump afterwards equals the dump before it; every later query behaves as on the reference model; after reopen the exact dump equals the model after the last successful query. Calls made by Drop/reopen are never failed. Non-trivial: the fault hit a query that had already performed >=1 storage write and >=1 mutating query succeeded after it. Distinct = hash of the case.".into();
@@ -579,6 +656,18 @@ pub fn c32(ctx: &mut Ctx) {
                 .prop_map(|(history, step_sel, call_sel, short_write, suffix)| FaultCase { history, step_sel, call_sel, short_write, suffix })
         },
         c32_case,
+    );
+    // campaign 2: no recovery log, signatures by the kind of the hit query
+    let cases2 = ctx.tier.pick(2000, 40_000);
+    replay_saved::<FaultCase, _>(ctx, "c32-fault-nolog", c32_mem_case);
+    run_campaign(
+        ctx,
+        CampaignCfg { name: "c32-fault-nolog", cases: cases2, max_shrink_iters: 600, max_restarts: 3 },
+        move || {
+            (vgen::history(&fault_profile(), lo, hi), any::<u16>(), any::<u16>(), any::<bool>(), prop::collection::vec(vgen::step(&fault_profile()), 2..10))
+                .prop_map(|(history, step_sel, call_sel, short_write, suffix)| FaultCase { history, step_sel, call_sel, short_write, suffix })
+        },
+        c32_mem_case,
     );
 }
 
